@@ -139,31 +139,31 @@ func invParser(p *Parser) bool {
 // --- value parsers: size hints in the text never size an allocation beyond the input (memory bounded by the input) ---
 
 //@ func (*Parser).parseBoolean
-//@ requires invParser(p) && 0 <= size
+//@ requires invParser(p) && 0 <= size && size <= 2147483647
 //@ modifies p.data, p.pos
 //@ allocates [input] len(p.input) + 1
 //@ ensures [inv] invParser(p)
 
 //@ func (*Parser).parseBinary
-//@ requires invParser(p) && 0 <= size
+//@ requires invParser(p) && 0 <= size && size <= 2147483647
 //@ modifies p.data, p.pos
 //@ allocates [input] len(p.input) + 1
 //@ ensures [inv] invParser(p)
 
 //@ func (*Parser).parseFloat
-//@ requires invParser(p) && 0 <= size
+//@ requires invParser(p) && 0 <= size && size <= 2147483647
 //@ modifies p.data, p.pos
 //@ allocates [input] len(p.input) + 1
 //@ ensures [inv] invParser(p)
 
 //@ func (*Parser).parseInt
-//@ requires invParser(p) && 0 <= size
+//@ requires invParser(p) && 0 <= size && size <= 2147483647
 //@ modifies p.data, p.pos
 //@ allocates [input] len(p.input) + 1
 //@ ensures [inv] invParser(p)
 
 //@ func (*Parser).parseUint
-//@ requires invParser(p) && 0 <= size
+//@ requires invParser(p) && 0 <= size && size <= 2147483647
 //@ modifies p.data, p.pos
 //@ allocates [input] len(p.input) + 1
 //@ ensures [inv] invParser(p)
